@@ -1,13 +1,43 @@
 package main
 
-import "verif/internal/report"
+import (
+	"strings"
+
+	"verif/internal/effects"
+	"verif/internal/kinds"
+	"verif/internal/load"
+	"verif/internal/report"
+	"verif/internal/small"
+	"verif/internal/yacc"
+)
 
 // Rules added in the fifth session (this file's init runs after props_zz4.go's).
 
+func (c *Ctx) nilablePos() {
+	c.Fixture("mini", "nilable-pos", true, func(p *load.Program, tb *kinds.Table) *report.RuleResult {
+		w, _ := effects.NewWorld(p)
+		return effects.NilablePos(w, "internal/badpos", "internal/php7", "pkg/errors")
+	})
+	if p, _, ok := c.RepoProgram(true); ok {
+		if w := c.world(p, "nilable-pos"); w != nil {
+			c.Add(effects.NilablePos(w, "internal/php5", "internal/php7", "pkg/errors", "pkg/parser"))
+		}
+	}
+}
+
 func init() {
+	properties["NP"] = &Property{Level: "other", Engine: "effects", Run: func(c *Ctx) { c.nilablePos() }}
+	properties["GR"] = &Property{ // development aid: grammar-structure rules
+		Level: "other", Engine: "yacc",
+		Run: func(c *Ctx) { defer c.cleanup(); c.grammarRule("prec-oracle", yacc.PrecOracle) },
+	}
+	properties["YX"] = &Property{ // development aid: grammar-action rules by name
+		Level: "other", Engine: "yyflow",
+		Run: func(c *Ctx) { defer c.cleanup(); c.flows_(strings.Split(envOr("VERIF_RULES", "int-parse-decimal"), ",")...) },
+	}
 	properties["LX"] = &Property{ // development aid: the rules of this file alone
 		Level: "other", Engine: "scandfa",
-		Run: func(c *Ctx) { defer c.cleanup(); c.scanRun("lexeme-of", "comment-kind") },
+		Run: func(c *Ctx) { defer c.cleanup(); c.scanRun(strings.Split(envOr("VERIF_RULES", "lexeme-of,comment-kind"), ",")...) },
 	}
 	const lx = "lexeme-of: for every action outcome of the generated scanner that returns a token or records a free-floating token with id X, every path of the automaton from the token start to that outcome spells a text in the language PHP gives X (`abstract` in any letter case for T_ABSTRACT, `<=>` for T_SPACESHIP, `(` blanks `int`|`integer` blanks `)` for T_INT_CAST, a label for T_STRING, blanks and line terminators for T_WHITESPACE, `#…`, `//…` or `/*…*/` for T_COMMENT, …: a table of 150 token ids). It is a language-inclusion check on the product of the reconstructed transition system with the deterministic automaton of the union of the specification languages (subset construction over regexp/syntax programs); a product node carries the specification state of the text consumed so far and of the text up to the recorded token end, the value of ragel's deferred-action selector `act`, and for every cursor mark the set of bytes that can stand before it, so that action conditions on `lex.act` and `lex.data[mark-1]` are charged only to the paths that can take them; the graph (about 280,000 nodes) is explored exhaustively, nothing is executed. Decides: no token id is returned for a text that is not one of its lexemes (two ids exchanged in one of 200 generated actions, a keyword action attached to another keyword's path, a free-floating kind on the wrong pattern). Does not decide the converse (that every lexeme is recognised: acceptance)."
 	const hk = "heredoc-kind (the same product): the opener of a heredoc continues in the nowdoc machine exactly on the paths that consumed a single quote, and in the heredoc machine exactly on the others (seeds C08-8, C08-10: the action looked at the byte at ts+3, which is a blank in `<<< 'EOT'`)."
@@ -17,6 +47,56 @@ func init() {
 	extendProp("C03", lx+" "+hk, lxF, func(c *Ctx) { defer c.cleanup(); c.scanRun("lexeme-of") })
 	extendProp("C04", lx+" "+ck, append(append([]report.Floor{}, lxF[:2]...), ckF...), func(c *Ctx) { defer c.cleanup(); c.scanRun("lexeme-of", "comment-kind") })
 	extendProp("C08", hk+" "+lx, lxF, func(c *Ctx) { defer c.cleanup(); c.scanRun("lexeme-of") })
+	const ipd = "int-parse-decimal: every integer-parsing call of strconv in a grammar action - the parse that tells the integer offset of `\"$a[12]\"` from the string offsets of `\"$a[0x1A]\"`, `\"$a[0b11]\"`, `\"$a[1_000]\"` - is a decimal parse into the platform's integer (Atoi, or ParseInt/ParseUint with the constants 10 and 0/64), in both grammars (seeds C03-13, C10-15: ParseInt with base 0)."
+	ipdF := []report.Floor{{Rule: "int-parse-decimal", What: "parses", Min: 3}}
+	for _, id := range []string{"C03", "C10"} {
+		extendProp(id, ipd, ipdF, func(c *Ctx) { defer c.cleanup(); c.flows_("int-parse-decimal") })
+	}
+	const od = "order-domain: the comparison methods of pkg/version (Compare, Less, LessOrEqual, Greater, GreaterOrEqual, InRange) are the numeric lexicographic order on (major, minor) - evaluated over every ordering of small values - so the scanner's only version test, `>= 7.3` for the flexible heredoc terminator, holds under 7.3 itself (seed C03-15: GreaterOrEqual implemented as Compare > 0; the dispatcher and the scanner were untouched)."
+	odF := []report.Floor{{Rule: "order-domain", What: "evaluations", Min: 1000}}
+	for _, id := range []string{"C03", "C08"} {
+		extendProp(id, od, odF, func(c *Ctx) {
+			c.Fixture("mini", "order-domain", true, func(p *load.Program, tb *kinds.Table) *report.RuleResult {
+				r := small.OrderDomainIn(p, "pkg/version")
+				r.Merge(small.OrderDomainIn(p, "pkg/badversion"), "bad:")
+				return r
+			})
+			if p, _, ok := c.RepoProgram(true); ok {
+				c.Add(small.OrderDomain(p))
+			}
+		})
+	}
+	const np = "nilable-pos: the position of the parser's current token is nil when that token is the end of the input, and so is the Pos of an error reported there; in the parser wrappers and pkg/errors such a pointer is only copied, handed on or compared, and dereferenced only under a dominating nil test of the same expression (SSA; seed C07-14: `pos := *p.currentToken.Position` panics on a statement cut off by the end of the file, the one error every truncated input has)."
+	npF := []report.Floor{{Rule: "nilable-pos", What: "loads", Min: 3}, {Rule: "nilable-pos", What: "dereferences", Min: 1}}
+	for _, id := range []string{"C01", "C06", "C07"} {
+		extendProp(id, np, npF, func(c *Ctx) { c.nilablePos() })
+	}
+	const bs = "byte-siblings: in every state of every machine of the scanner all bytes 0x80-0xFF take the same transitions, and so do the control bytes that are not whitespace and the digits 2-9 - PHP's lexical grammar never tells two bytes of one of these classes apart, so an off-by-one in a range test of the generated code, which separates a boundary byte (0xFF, 0x80, 0x7F, '9') from its class, shows as a state that treats siblings differently (seed C08-15: `_widec < 767` ended a `//` comment in front of the first 0xFF byte)."
+	const cu = "crlf-unit: wherever a state consumes LF and CR inside one token, the LF that follows the CR is consumed too and leads to a state that behaves like the one a lone LF leads to (same transitions on all 256 bytes and at the end of the input): CR LF is one terminator (seed C08-13: after `; ?>` CR the LF of the pair became inline HTML)."
+	bsF := []report.Floor{{Rule: "byte-siblings", What: "states", Min: 500}, {Rule: "crlf-unit", What: "states", Min: 60}}
+	for _, id := range []string{"C08", "C03"} {
+		extendProp(id, bs+" "+cu, bsF, func(c *Ctx) { defer c.cleanup(); c.scanRun("byte-siblings", "crlf-unit") })
+	}
+	extendProp("C09", "globals-assigned: in the command every package-level variable that some function reads is written somewhere in the package (a store, or its address handed to a function such as flag.StringVar) - a variable that is read but never written is the zero value for ever (seed C09-13: `phpVersion, err := version.New(phpVer)` declared a local; the workers read the package-level nil and every file was parsed as 7.4 whatever -phpver said).",
+		[]report.Floor{{Rule: "globals-assigned", What: "variables", Min: 8}},
+		func(c *Ctx) {
+			c.Fixture("mini", "globals-assigned", true, func(p *load.Program, tb *kinds.Table) *report.RuleResult {
+				w, _ := effects.NewWorld(p)
+				r := effects.GlobalsAssigned(w, "cmd/goodcli")
+				r.Merge(effects.GlobalsAssigned(w, "cmd/badcli"), "bad:")
+				return r
+			})
+			c.ssaRepo("globals-assigned", func(w *effects.World) *report.RuleResult { return effects.GlobalsAssigned(w, "cmd/php-parser") })
+		})
+	extendProp("C14", "presence-oracle: which slots of which node kinds a silently parsed tree may leave empty equals the reviewed table - a name node's kind is told by its tokens (a NameRelative has its `namespace` keyword, a NameFullyQualified its leading separator), and the resolver chooses the rule by kind (seed C14-13: `\\Vendor\\X` in a PHP 5 constant expression built as a NameRelative without the keyword, resolved against the current namespace).",
+		[]report.Floor{{Rule: "presence-oracle", What: "slots", Min: 1100}},
+		func(c *Ctx) { defer c.cleanup(); c.presenceOracle() })
+	extendProp("C10", "pool-typestate: positions come from a pool per parse; the two grammars request different numbers of positions for the same source, so a pool that hands one object out twice corrupts different nodes under 5.x and 7.x (seed C10-14: early return of &block[0] without advancing the offset).",
+		[]report.Floor{{Rule: "pool-typestate", What: "pools", Min: 2}},
+		func(c *Ctx) { c.poolRule() })
+	extendProp("C15", "linear and order on both grammars: the printer emits slots in declaration order, which is source order only if every grammar action puts each right-hand-side token into the slot whose position in the declaration matches its position in the source, once, and never a package-level object (seeds C15-13: the two separators of `use \\Foo\\{…}` stored in each other's slot; C15-14: one shared ExprArrayItem for every skipped list entry).",
+		[]report.Floor{{Rule: "linear", What: "productions", Min: 1000}, {Rule: "order", What: "objects", Min: 900}},
+		func(c *Ctx) { defer c.cleanup(); c.flows_("linear", "order") })
 	for _, id := range []string{"C03", "C04", "C08"} {
 		properties[id].Technique += "; language inclusion on the product of the scanner's transition system with the automaton of PHP's lexemes per token id"
 	}
